@@ -21,6 +21,7 @@ class Cfg(object):
         self.reads = False
         self.faults = True       # failing leaves, raise statements
         self.lazy_raise = True
+        self.tools = ()             # library tools used as leaves: subset of TOOLS ("dd2" = deduplicated bodies that re-enter themselves from a failure handler)
         self.shared_lazy = 0        # weight of ["slazy", mode, k] leaves: the same lazy Future object in several places
         self.bad = True
         self.unset = True
@@ -116,6 +117,8 @@ def plain_leaf(s):
         opts += ["ditem"] * 2
     if cfg.shared_lazy:
         opts += ["slazy"] * cfg.shared_lazy
+    if cfg.tools:
+        opts += ["tool"] * 3
     if cfg.faults:
         opts += ["errfut"] * cfg.fault_leaf_w
         if cfg.lazy_raise:
@@ -133,6 +136,8 @@ def plain_leaf(s):
         return ["nonef"]
     if k == "lazyok":
         return ["lazy", "ok", s.uid()]
+    if k == "tool":
+        return tool_leaf(s)
     if k == "slazy":
         n = s.int(0, 2)
         return ["slazy", "raise" if n == 2 and cfg.faults and cfg.lazy_raise else "ok", n]
@@ -143,6 +148,31 @@ def plain_leaf(s):
     if k == "lazyraise":
         return ["lazy", "raise", s.uid()]
     return ["bad", s.pick([0, 7, "x"])]
+
+
+TOOLS = ("dd", "alru", "agen", "amap", "asorted", "amin", "amax", "afilter", "retry", "cwc")
+
+
+def tool_leaf(s):
+    cfg = s.cfg
+    name = s.pick([t for t in cfg.tools if t != "dd2"])
+    kind = s.pick(cfg.kinds)
+    if name == "dd":
+        modes = [0, 0, 1] + ([3] if cfg.faults else []) + ([2, 2] if "dd2" in cfg.tools else [])
+        return ["tool", "dd", s.pick(modes) + 4 * s.int(0, 1), kind]
+    if name == "alru":
+        return ["tool", "alru", s.int(0, 2), kind]
+    if name == "agen":
+        n = s.int(0, 3)
+        cid0 = s.cid()
+        for _ in range(max(0, n - 1)):
+            s.cid()
+        return ["tool", "agen", n, kind, cid0, s.pick(["plain", "await", "await", "value", "span"] if cfg.ctx else ["plain"])]
+    if name in ("amap", "asorted", "amin", "amax", "afilter"):
+        return ["tool", name, s.int(0, 3), s.int(0 if name in ("amap", "asorted", "afilter") else 1, 3), kind]
+    if name == "retry":
+        return ["tool", "retry", s.uid(), kind]
+    return ["tool", "cwc", s.int(0, 3), kind, s.cid()]
 
 
 def struct(s, depth, sdepth=0):
@@ -404,7 +434,7 @@ def decorate_task(s, t, shared_ids):
     if cfg.itemvalue and s.chance(6):
         pos_body = pick_block(s, body)
         pos_body.insert(s.int(0, len(pos_body)), {"op": "itemvalue", "item": item(s), "catch": s.chance(2)})
-    if cfg.cancels and s.chance(8):
+    if cfg.cancels and not getattr(s, "has_tools", False) and s.chance(8):
         pos_body = pick_block(s, body)
         pos_body.insert(s.int(0, len(pos_body)), {"op": "cancel", "kind": s.pick(cfg.kinds)})
     if cfg.probes and s.chance(5):
@@ -504,6 +534,28 @@ def add_own_refs(s, root):
                     earlier += [leaf[1]["id"] for leaf in walk_struct(st_["y"]) if leaf[0] == "task"]
 
 
+def add_gen_loops(s, root):
+    """some tasks iterate an async generator by hand, a few items per statement, interleaved with their other statements
+    (so that blocks of the consumer and blocks of the generator body overlap in every way)"""
+    added = False
+    for t in tasks_of(root):
+        if not s.chance(6):
+            continue
+        body = t["body"]
+        n = s.int(1, 3)
+        cid0 = s.cid()
+        for _ in range(n - 1):
+            s.cid()
+        at = s.int(0, len(body))
+        body.insert(at, {"op": "genstart", "gid": 0, "n": n, "kind": s.pick(s.cfg.kinds), "cid0": cid0,
+                         "mode": s.pick(["plain", "await", "value", "span", "span"] if s.cfg.ctx else ["plain"])})
+        for _ in range(s.int(1, 3)):
+            at = s.int(at + 1, len(body))
+            body.insert(at, {"op": "gennext", "gid": 0, "count": s.int(1, 2)})
+        added = True
+    return added
+
+
 def add_same_yield_dups(s, root):
     """the same not-yet-started task written more than once in one yielded tuple/list: (a, b, a)"""
     from .engine import walk_stmts
@@ -586,6 +638,12 @@ def programs(draw, cfg):
         for st_ in walk_stmts(t["body"]):
             if st_["op"] == "mk":
                 shared.update(x["id"] for x in tasks_of(st_["task"]))
+    # (cancelled batches and failing flush bodies would hit the requests made inside library-tool bodies, which the
+    # sequential reference does not see: programs that use tools get neither)
+    from .engine import walk_struct
+    s.has_tools = any(leaf[0] == "tool" for t in tasks_of(root) for st_ in walk_stmts(t["body"]) if st_["op"] == "yield" for leaf in walk_struct(st_["y"]))
+    if "agen" in cfg.tools and add_gen_loops(s, root):
+        s.has_tools = True
     for t in tasks_of(root):
         decorate_task(s, t, shared)
     if cfg.dag and shape in ("free", "tree", "chain", "comb") and s.chance(2):
@@ -598,7 +656,7 @@ def programs(draw, cfg):
     if cfg.reyield:
         add_reyields(s, root)
     prog = {"root": root, "shape": shape, "prio": priorities(s), "faults": [], "conv": s.pick(cfg.convs), "nsv": 2}
-    if cfg.flush_faults and s.chance(3):
+    if cfg.flush_faults and not s.has_tools and s.chance(3):
         for _ in range(s.int(1, 2)):
             prog["faults"].append([s.pick(cfg.kinds), s.pick([0, 0, 0, 1, 1, 2]), s.pick(cfg.flush_faults)])
     return prog
